@@ -19,8 +19,19 @@ Good(ev) ==
        /\ Conforms(L.roots, L.base, ev.segs, ev.err /\ ~ev.panic,
                    [i \in 1..Len(ev.changes) |-> ev.changes[i].p], ev.got)
 
+\* which part of the property a rejected event breaks (for the report; the verdict is Good)
+Why(ev) ==
+    LET L == Layout(ev.comp, ev.op, ev.pad, ev.depth)
+    IN [layout |-> ~(<<ev.comp, ev.op>> \in CompOps /\ ev.roots = L.roots /\ ev.base = L.base),
+        changed |-> {ev.changes[i].k : i \in {j \in 1..Len(ev.changes) : ~Inside(L.roots, ev.changes[j].p)}},
+        returned |-> \E i \in 1..Len(ev.got) : ~Inside(L.roots, ev.got[i]),
+        noerror |-> Escapes(L.roots, L.base, ev.segs) /\ ~(ev.err /\ ~ev.panic),
+        escapes |-> Escapes(L.roots, L.base, ev.segs),
+        cls |-> Class(L.roots, L.base, ev.segs)]
+
 Bad == {i \in 1..Len(Trace) : ~Good(Trace[i])}
-Init == l = 0 /\ PrintT(<<"@@", ToJson([bad |-> Bad, n |-> Len(Trace)])>>)
+BadSeq == LET RECURSIVE f(_) f(S) == IF S = {} THEN <<>> ELSE LET m == CHOOSE x \in S : \A y \in S : x <= y IN <<m>> \o f(S \ {m}) IN f(Bad)
+Init == l = 0 /\ PrintT(<<"@@", ToJson([bad |-> BadSeq, n |-> Len(Trace), why |-> [i \in 1..Len(BadSeq) |-> Why(Trace[BadSeq[i]])]])>>)
 Next == l < 1 /\ l' = 1
 Spec == Init /\ [][Next]_l
 Accepted == TLCGet("level") >= 0 /\ Bad = {}
